@@ -71,7 +71,7 @@ def _cases(tier, seed):
                 for form in ("1d", "2d", "2d+extra", "2dF", "int", "int_e", "2d_stagger"):
                     for region in REGIONS:
                         yield dict(frame=fr, spec=spec, adjust=adjust, form=form, region=region, given=True)
-                    if (form not in ("1d",) and tier == "quick") or form in ("int", "int_e"):
+                    if (form not in ("1d",) and tier == "quick") or form in ("int", "int_e", "2d_stagger"):
                         continue   # integer forms drop the non-integer lattice points, which would change an inferred region
                     for k in (2, 3, 4):
                         for sub in itertools.combinations(range(len(MARKERS)), k):
